@@ -52,6 +52,9 @@ JOBS = [
   Job("c12.detach", TR, "h_detach", replace_calls=REL, read_hooks=HOOK, loops=spin("myth_detach_body", 1), loop_counts={"myth_detach_body": 1},
       fuc=["myth_detach_body"], timeout=200),
 ]
+# the public API functions are one-line forwarders to the bodies under contract: checked mechanically (DESIGN 3.5b)
+from units.common_forward import forward_job
+JOBS = list(JOBS) + [forward_job("c12")]
 META = {
  "level": "proof",
  "level_text": "Every obligation generated from the real allocator bodies (size classes for all sizes 1..2^30, free-list push/pop with frame, "
